@@ -82,7 +82,7 @@ Proof.
 Qed.
 
 (* ---------------------------------------------------------------- first poll(): PUBREC in, PUBREL out, the broker answers PUBCOMP *)
-Theorem poll_pubrec_sends_pubrel : forall w pid e t,
+Theorem poll_pubrec_sends_pubrel_rt : forall w pid e t,
   Hc w -> pid < 65536 -> 4 <= rcap (rd w) -> rdata (rd w) = [] -> rplen (rd w) = None ->
   ob_ctl (s_ob (w_sess w)) = [] -> ob_rel (s_ob (w_sess w)) = [] -> ob_ret (s_ob (w_sess w)) = [sent_entry e] -> re_pid e = pid ->
   rt_ka_ms (s_rt (w_sess w)) = 0 -> rt_next_ping (s_rt (w_sess w)) = None -> rt_ping_timeout (s_rt (w_sess w)) = None ->
@@ -94,7 +94,8 @@ Theorem poll_pubrec_sends_pubrel : forall w pid e t,
     ob_ctl (s_ob (w_sess w')) = [] /\ ob_ret (s_ob (w_sess w')) = [] /\ ob_rel (s_ob (w_sess w')) = [rel_entry pid SSent] /\
     rt_ka_ms (s_rt (w_sess w')) = 0 /\ rt_next_ping (s_rt (w_sess w')) = None /\ rt_ping_timeout (s_rt (w_sess w')) = None /\
     w_broker w' = 1 /\ w_txbuf w' = [] /\ w_last_arrival w' = w_now w /\
-    rt_quota (s_rt (w_sess w')) = rt_quota (s_rt (w_sess w)) /\ rt_maxquota (s_rt (w_sess w')) = rt_maxquota (s_rt (w_sess w)).
+    rt_quota (s_rt (w_sess w')) = rt_quota (s_rt (w_sess w)) /\ rt_maxquota (s_rt (w_sess w')) = rt_maxquota (s_rt (w_sess w)) /\
+    ob_buf (s_ob (w_sess w')) = ob_buf (s_ob (w_sess w)) /\ rt_mps (s_rt (w_sess w')) = None.
 Proof.
   intros w pid e t Hcw Hp Hcap Hd Hpl Ec El Er Epid Hka Hnp Hpt Hbr Htx Hi Ht Hla.
   pose proof Hcw as [Hs [Hl [I [Hmps [_ [HB HF]]]]]].
@@ -195,8 +196,31 @@ Proof.
   assert (Rd5 : rd w5 = reader_reset (rd w)) by (unfold rd; rewrite R5; fold s4; exact Rd4).
   split; [rewrite Rd5; reflexivity|]. split; [rewrite Rd5; reflexivity|]. split; [rewrite Rd5; reflexivity|].
   split; [rewrite N5; exact N4|]. split; [exact Ec5|]. split; [exact Er5|]. split; [exact El5|].
-  split; [exact T3|]. split; [exact T1|]. split; [exact T2|]. split; [exact Vb|]. split; [exact Vt|]. split; [exact Vl|]. split; [exact T4|exact T5].
+  split; [exact T3|]. split; [exact T1|]. split; [exact T2|]. split; [exact Vb|]. split; [exact Vt|]. split; [exact Vl|]. split; [exact T4|]. split; [exact T5|].
+  split; [rewrite Eb5; exact Bf4|exact (proj1 (proj2 (proj2 (proj2 Hc5))))].
 Qed.
+
+Theorem poll_pubrec_sends_pubrel : forall w pid e t,
+  Hc w -> pid < 65536 -> 4 <= rcap (rd w) -> rdata (rd w) = [] -> rplen (rd w) = None ->
+  ob_ctl (s_ob (w_sess w)) = [] -> ob_rel (s_ob (w_sess w)) = [] -> ob_ret (s_ob (w_sess w)) = [sent_entry e] -> re_pid e = pid ->
+  rt_ka_ms (s_rt (w_sess w)) = 0 -> rt_next_ping (s_rt (w_sess w)) = None -> rt_ping_timeout (s_rt (w_sess w)) = None ->
+  w_broker w = 1 -> w_txbuf w = [] -> w_inq w = [(t, 80 :: [2] ++ u16_be pid)] -> t <= w_now w -> w_last_arrival w <= w_now w ->
+  exists w',
+    op_poll FUEL w = (w', ODone None) /\ w_wire w' = w_wire w ++ rel_bytes pid 0 /\
+    w_inq w' = [(w_now w, 112 :: [2] ++ u16_be pid)] /\
+    Hc w' /\ rdata (rd w') = [] /\ rplen (rd w') = None /\ rcap (rd w') = rcap (rd w) /\ w_now w' = w_now w /\
+    ob_ctl (s_ob (w_sess w')) = [] /\ ob_ret (s_ob (w_sess w')) = [] /\ ob_rel (s_ob (w_sess w')) = [rel_entry pid SSent] /\
+    rt_ka_ms (s_rt (w_sess w')) = 0 /\ rt_next_ping (s_rt (w_sess w')) = None /\ rt_ping_timeout (s_rt (w_sess w')) = None /\
+    w_broker w' = 1 /\ w_txbuf w' = [] /\ w_last_arrival w' = w_now w /\
+    rt_quota (s_rt (w_sess w')) = rt_quota (s_rt (w_sess w)) /\ rt_maxquota (s_rt (w_sess w')) = rt_maxquota (s_rt (w_sess w)).
+Proof.
+  intros w pid e t Hcw Hp Hcap Hd Hpl Ec El Er Epid Hka Hnp Hpt Hbr Htx Hi Ht Hla.
+  destruct (poll_pubrec_sends_pubrel_rt w pid e t Hcw Hp Hcap Hd Hpl Ec El Er Epid Hka Hnp Hpt Hbr Htx Hi Ht Hla)
+    as [w' [A1 [A2 [A3 [A4 [A5 [A6 [A7 [A8 [A9 [A10 [A11 [A12 [A13 [A14 [A15 [A16 [A17 [A18 [A19 _]]]]]]]]]]]]]]]]]]]].
+  exists w'. repeat (split; [assumption|]). assumption.
+Qed.
+
+
 
 (* ---------------------------------------------------------------- second poll(): PUBCOMP in, the exchange is over *)
 Theorem poll_pubcomp_completes : forall w pid t,
